@@ -8,6 +8,7 @@ import (
 	"bufio"
 	"fmt"
 	"os"
+	"regexp"
 	"strconv"
 	"strings"
 	"sync/atomic"
@@ -20,7 +21,12 @@ func execConc(args []string) string {
 	old := os.Stdout
 	r, w, _ := os.Pipe()
 	os.Stdout = w
-	var best, ready, interleaved int64
+	var best, ready, interleaved, illegal int64
+	legalP := legalUciSet("position startpos moves e2e4 e7e5")
+	legalQ := legalUciSet("position fen r3k2r/p1ppqpb1/bn2pnp1/3PN3/1p2P3/2N2Q1p/PPPBBPPP/R3K2R w KQkq - 0 1")
+	legalE := legalUciSet("position fen 8/8/8/4k3/8/8/4P3/4K3 w - - 0 1")
+	var curLegal atomic.Value
+	curLegal.Store(map[string]bool(nil))
 	readerDone := make(chan struct{})
 	go func() {
 		defer close(readerDone)
@@ -30,13 +36,15 @@ func execConc(args []string) string {
 			l := sc.Text()
 			switch {
 			case strings.HasPrefix(l, "bestmove "):
-				if len(strings.Fields(l)) != 2 {
+				if f := strings.Fields(l); len(f) != 2 {
 					atomic.AddInt64(&interleaved, 1)
+				} else if set, _ := curLegal.Load().(map[string]bool); set != nil && !set[f[1]] {
+					atomic.AddInt64(&illegal, 1)
 				}
 				atomic.AddInt64(&best, 1)
 			case l == "readyok":
 				atomic.AddInt64(&ready, 1)
-			case strings.HasPrefix(l, "info ") || strings.HasPrefix(l, "id ") || l == "uciok" || l == "":
+			case wholeLine(l):
 			default:
 				atomic.AddInt64(&interleaved, 1) // a line that is not a whole UCI line: output got interleaved
 			}
@@ -66,8 +74,10 @@ func execConc(args []string) string {
 		}
 		switch {
 		case t == "P":
+			curLegal.Store(legalP)
 			live = send("position startpos moves e2e4 e7e5")
 		case t == "Q":
+			curLegal.Store(legalQ)
 			live = send("position fen r3k2r/p1ppqpb1/bn2pnp1/3PN3/1p2P3/2N2Q1p/PPPBBPPP/R3K2R w KQkq - 0 1")
 		case t == "Gi":
 			gos++
@@ -78,6 +88,17 @@ func execConc(args []string) string {
 		case t == "Gd":
 			gos++
 			live = send("go depth 2")
+		case t == "Ge":
+			gos++
+			curLegal.Store(legalE)
+			live = send("position fen 8/8/8/4k3/8/8/4P3/4K3 w - - 0 1") && send("go depth 14")
+		case strings.HasPrefix(t, "RR"):
+			// a burst of isready while the search prints its info lines
+			k, _ := strconv.Atoi(t[2:])
+			for i := 0; i < k && live; i++ {
+				readys++
+				live = send("isready")
+			}
 		case t == "Gm":
 			gos++
 			live = send("go movetime 20000")
@@ -126,7 +147,7 @@ func execConc(args []string) string {
 		uci.VerifNewGame() // leave the stuck game object behind
 		send("stop")
 	}
-	return fmt.Sprintf("out=b%d,r%d p.live=%s p.prompt=%s p.whole=%s", atomic.LoadInt64(&best), atomic.LoadInt64(&ready), b2s(live), b2s(prompt), b2s(atomic.LoadInt64(&interleaved) == 0))
+	return fmt.Sprintf("out=b%d,r%d p.live=%s p.prompt=%s p.whole=%s p.bestlegal=%s", atomic.LoadInt64(&best), atomic.LoadInt64(&ready), b2s(live), b2s(prompt), b2s(atomic.LoadInt64(&interleaved) == 0), b2s(atomic.LoadInt64(&illegal) == 0))
 }
 
 func concOps(o *Out, seed uint64, n int) {
@@ -146,6 +167,11 @@ func concOps(o *Out, seed uint64, n int) {
 			}
 		}
 		rounds := 1 + rng.Intn(3)
+		if i%6 == 5 {
+			// output atomicity: many isready while a deepening search with long PVs is printing
+			toks = append(toks, "Ge", fmt.Sprintf("RR%d", 200+rng.Intn(400)), "S", "B")
+			rounds = 0
+		}
 		for j := 0; j < rounds; j++ {
 			noise()
 			toks = append(toks, []string{"P", "Q"}[rng.Intn(2)])
@@ -185,4 +211,21 @@ func concOps(o *Out, seed uint64, n int) {
 		o.Run("conc " + strings.Join(toks, " "))
 		o.Stat("conc_dialogues")
 	}
+}
+
+var infoLineRe = regexp.MustCompile(`^info depth \d+ score cp -?\d+ time \d+ nodes \d+ nps -?\d+ hashfull \d+ pv( [a-h][1-8][a-h][1-8][nbrq]?)* ?$`)
+
+// wholeLine: is l one complete output line of the engine (nothing glued to it)?
+func wholeLine(l string) bool {
+	switch {
+	case l == "" || l == "uciok":
+		return true
+	case strings.HasPrefix(l, "id name ") || strings.HasPrefix(l, "id author "):
+		return true
+	case strings.HasPrefix(l, "info depth "):
+		return infoLineRe.MatchString(l)
+	case strings.HasPrefix(l, "info string "):
+		return !strings.Contains(l, "readyok") && !strings.Contains(l, "bestmove") && !strings.Contains(l[5:], "info ")
+	}
+	return false
 }
